@@ -270,3 +270,45 @@ Example C08_example_root :
   Qred (value ex_full_walker2 - value ex_full_walker) = - (1#12).
 Proof. exact Proofs.C08_unbiased.ex_root_hyps. Qed.
 Print Assumptions C08_example_root.
+
+(* ---------- the estimator for ANY traverser profile (sigma = 0 allowed on traverser edges) ----------
+   es_shape demands sigma > 0 on every edge below a traverser node, but the regret computation never
+   divides by the traverser's own probabilities.  es_shape_any (Spec/SpecCfrAny.v) demands nothing
+   of them (so an action the current strategy plays with probability 0 is covered), keeps sigma > 0
+   below opponent nodes and sigma == 1 below chance nodes, and drops the at-most-one-child clause. *)
+From RP Require Import Spec.SpecCfrAny.
+From RP Require Proofs.C08_any.
+
+Theorem C08_es_shape_any_weaker : forall t, es_shape t -> es_shape_any t.
+Proof. exact Proofs.C08_any.es_shape_any_of_es_shape. Qed.
+Print Assumptions C08_es_shape_any_weaker.
+
+Theorem C08_estimator_any_profile : forall t, es_shape_any t ->
+  triples_eq (immediate_regrets_Q t) (regret_estimator_Q t).
+Proof. exact Proofs.C08_any.estimator_any. Qed.
+Print Assumptions C08_estimator_any_profile.
+
+Theorem C08_estimator_infoset_any_profile : forall t b e, es_shape_any t ->
+  sum_gains Q 0 Qplus (immediate_regrets_Q t) b e == sum_gains Q 0 Qplus (regret_estimator_Q t) b e.
+Proof. exact Proofs.C08_any.estimator_infoset_any. Qed.
+Print Assumptions C08_estimator_infoset_any_profile.
+
+(* hypothesis satisfiable by a tree that es_shape rejects: ex_tree3 with the first action of the top
+   traverser node played with probability 0 *)
+Example C08_example_any_profile : es_shape_any ex_tree3_zero /\ ~ es_shape ex_tree3_zero.
+Proof. exact Proofs.C08_any.ex_tree3_zero_shape. Qed.
+Example C08_example_any_profile_values :
+  map (fun x => (fst x, Qred (snd x))) (immediate_regrets_Q ex_tree3_zero)
+  = map (fun x => (fst x, Qred (snd x))) (regret_estimator_Q ex_tree3_zero)
+  /\ map (fun x => (fst x, Qred (snd x))) (regret_estimator_Q ex_tree3_zero)
+  = [(2%N, 2%N, - (7#3)); (2%N, 3%N, 0); (4%N, 2%N, - (16#3)); (4%N, 4%N, 8#3)].
+Proof. exact Proofs.C08_any.ex_tree3_zero_values. Qed.
+
+(* with es_shape_any no positivity hypothesis on anybody's strategy is left: for every full tree with
+   probabilities >= 0 summing to 1 (full_ok), every external-sampling sample of positive probability has
+   the weak shape, so C08_estimator_any_profile applies to it (compare C08_samples_es_shape_support,
+   which needs walker_pos).  Hypothesis satisfiable: C08_example_full (ex_full) above. *)
+Theorem C08_samples_es_shape_any : forall t, full_ok t ->
+  forall q s, In (q, s) (samples t) -> 0 < q -> es_shape_any s.
+Proof. exact Proofs.C08_any.samples_es_shape_any_support. Qed.
+Print Assumptions C08_samples_es_shape_any.
